@@ -534,6 +534,19 @@ def fixed(a: A) -> Fixed[A]:
     return Fixed(a)
 
 
+def _where_leading(check, v1, v2):
+    """`jnp.where` whose condition broadcasts against the *leading* axes.
+
+    A vectorized `Cond` trace carries a `check` of shape `batch` while its
+    choices / return values have shape `batch + event`.
+    """
+    check = jnp.asarray(check)
+    extra = max(jnp.ndim(v1), jnp.ndim(v2)) - check.ndim
+    if extra > 0:
+        check = check.reshape(check.shape + (1,) * extra)
+    return jnp.where(check, v1, v2)
+
+
 #######
 # GFI #
 #######
@@ -1666,7 +1679,7 @@ class Distribution(Generic[X], GFI[X, X]):
         """
         if check is not None:
             # Conditional merge using jnp.where
-            merged = jtu.tree_map(lambda v1, v2: jnp.where(check, v1, v2), x, x_)
+            merged = jtu.tree_map(lambda v1, v2: _where_leading(check, v1, v2), x, x_)
             # No values are truly "discarded" in conditional selection
             return merged, None
         else:
@@ -2246,7 +2259,9 @@ class Fn(
                     if check is not None:
                         # Use conditional selection at the leaf
                         result[key] = jtu.tree_map(
-                            lambda v1, v2: jnp.where(check, v1, v2), val_x, val_x_
+                            lambda v1, v2: _where_leading(check, v1, v2),
+                            val_x,
+                            val_x_,
                         )
                         # In conditional merge, nothing is truly discarded
                     else:
@@ -2632,7 +2647,7 @@ class CondTr(Generic[X, R], Trace[X, R]):
         return (self.check, *self.trs[0].get_args())
 
     def get_retval(self) -> R:
-        return jnp.where(self.check, *map(get_retval, self.trs))
+        return _where_leading(self.check, *map(get_retval, self.trs))
 
     def get_score(self) -> Score:
         return jnp.where(self.check, *map(get_score, self.trs))
